@@ -233,6 +233,26 @@ class Env:
         except Exception:  # noqa: BLE001
             pass
 
+    def fingerprint(self):
+        """Cheap exact state fingerprint: the bytes of the container file(s) after a flush.
+        Equal bytes = equal raw content; unequal bytes are confirmed with `dump` by the caller."""
+        import hashlib
+        try:
+            if self.driver == "hdf5":
+                self.raw.flush()
+                paths = [self.raw.filename]
+            else:
+                for f in self.raw.__files__:
+                    f.flush()
+                paths = [str(p) for p in self.raw.ih5_files]
+            h = hashlib.sha1()
+            for p in paths:
+                with open(p, "rb") as fh:
+                    h.update(fh.read())
+            return h.digest()
+        except Exception:  # noqa: BLE001
+            return repr(self.dump())
+
     def dump(self) -> List[Any]:
         """Raw (unwrapped) content: every node with kind, value and attributes."""
         out = []
@@ -393,15 +413,45 @@ def _raw_attr_del(env: Env, path: str, key: str):
         pass
 
 
-def run_op(env: Env, sess: Session, node, op) -> Tuple[str, str]:
+def _make_sacrifice(env: Env, sess: Session, full: str):
+    """A nested group with metadata on itself and on a child dataset (delete / move / copy target)."""
+    U = sess.U
+    U.create_group(full)
+    U[full + "/c"] = 1
+    U[full].meta[SCHEMA2] = env.Org(name="SacG")
+    U[full + "/c"].meta[SCHEMA2] = env.Org(name="SacC")
+
+
+def _drop_sacrifice(env: Env, sess: Session, full: str):
+    try:
+        if full in env.raw:
+            del sess.U[full]          # wrapper-level delete: metadata and TOC links go too
+    except Exception:  # noqa: BLE001
+        _raw_del(env, full)
+
+
+def run_op(env: Env, sess: Session, node, op, check_state: bool = False, logical: bool = False):
     """Attempt one protocol operation on the node; every effect of a passing operation is
     undone through the raw container (or, for metadata, through the unrestricted handle of
-    the same wrapper).  -> ("refused" | "passed", detail)"""
+    the same wrapper).  -> ("refused" | "passed", detail, state changed by a refused op?)
+
+    With `check_state` the raw state right before the operation proper (after the harness's own
+    preparation: sacrificial children, attributes, metadata) is compared with the state right
+    after a refusal, before any clean-up: by file bytes first, confirmed by a second execution
+    with full raw dumps (`logical`)."""
     raw = env.raw
     name = node.name
     base = name.rstrip("/")
     t = op[0]
     cleanup: List[Any] = []
+    pre: List[Any] = []
+
+    def snap():
+        return env.dump() if logical else env.fingerprint()
+
+    def mark():
+        if check_state:
+            pre.append(snap())
 
     def tgt(ab, segs):
         return _abs(segs) if ab else base + "/" + "/".join(segs)
@@ -411,7 +461,14 @@ def run_op(env: Env, sess: Session, node, op) -> Tuple[str, str]:
         if t == "grp":
             g, ab, segs = op[1], op[2], op[3]
             p, full = parg_str(ab, segs), tgt(ab, segs)
-            cleanup.append(lambda: _raw_del(env, full))
+            if g == "delitem" and not ab:
+                cleanup.append(lambda: _drop_sacrifice(env, sess, full))
+                _make_sacrifice(env, sess, full)
+            else:
+                cleanup.append(lambda: _raw_del(env, full))
+                if g == "delitem":
+                    raw[full] = 1
+            mark()
             if g == "create_group":
                 node.create_group(p)
             elif g == "require_group":
@@ -423,13 +480,17 @@ def run_op(env: Env, sess: Session, node, op) -> Tuple[str, str]:
             elif g == "setitem":
                 node[p] = 1
             elif g == "delitem":
-                raw[full] = 1
                 del node[p]
         elif t in ("move", "copy"):
             pa, fa = parg_str(op[1], op[2]), tgt(op[1], op[2])
             pb, fb = parg_str(op[3], op[4]), tgt(op[3], op[4])
-            cleanup.append(lambda: (_raw_del(env, fa), _raw_del(env, fb)))
-            raw[fa] = 1
+            if not op[1] and not op[3]:
+                cleanup.append(lambda: (_drop_sacrifice(env, sess, fa), _drop_sacrifice(env, sess, fb)))
+                _make_sacrifice(env, sess, fa)
+            else:
+                cleanup.append(lambda: (_raw_del(env, fa), _raw_del(env, fb)))
+                raw[fa] = 1
+            mark()
             if t == "move":
                 node.move(pa, pb)
             else:
@@ -456,8 +517,10 @@ def run_op(env: Env, sess: Session, node, op) -> Tuple[str, str]:
             cleanup.append(restore)
             import numpy as np
             v1 = (np.asarray(v0) + 1) if np.asarray(v0).dtype.kind in "iu" else b"other"
+            mark()
             node[()] = v1
         elif t == "ds_member":
+            mark()
             getattr(node, op[1])
         elif t == "attr":
             a = node.attrs
@@ -469,10 +532,12 @@ def run_op(env: Env, sess: Session, node, op) -> Tuple[str, str]:
                 detail = "value"
             elif which == "setitem":
                 cleanup.append(lambda: _raw_attr_del(env, name, "zn"))
+                mark()
                 a["zn"] = 1
             elif which == "delitem":
                 raw[name].attrs["zk"] = 7
                 cleanup.append(lambda: _raw_attr_del(env, name, "zk"))
+                mark()
                 del a["zk"]
             elif which == "contains":
                 _ = "ga" in a
@@ -481,6 +546,7 @@ def run_op(env: Env, sess: Session, node, op) -> Tuple[str, str]:
             elif which == "len":
                 len(a)
         elif t == "attr_method":
+            mark()
             getattr(node.attrs, op[1])
         elif t == "meta":
             which = op[1]
@@ -516,11 +582,13 @@ def run_op(env: Env, sess: Session, node, op) -> Tuple[str, str]:
                 detail = "value"
             elif which == "setitem":
                 cleanup.append(drop2)
+                mark()
                 m[sac] = Sac(name="Sac")
             elif which == "delitem":
                 cleanup.append(drop2)
                 un.meta[sac] = Sac(name="Sac")
                 m = node.meta
+                mark()
                 del m[sac]
             elif which == "keys":
                 list(m.keys())
@@ -540,10 +608,17 @@ def run_op(env: Env, sess: Session, node, op) -> Tuple[str, str]:
     except Exception as e:  # noqa: BLE001
         res = "refused" if is_refusal(e) else "passed"
         detail = f"{type(e).__name__}: {e}"[:120]
+    changed = None
+    try:
+        if check_state and res == "refused" and op_is_mutating(op):
+            changed = (snap() != pre[-1]) if pre else False
     finally:
         for c in cleanup:
             c()
-    return res, detail
+    if changed and not logical:
+        # file bytes differ: confirm on the raw content with a second execution
+        return run_op(env, sess, node, op, check_state=True, logical=True)
+    return res, detail, changed
 
 
 META_HOPS = [["values", "node"], ["values", "file"], ["values", "parent"], ["items", "node"], ["items", "file"]]
@@ -629,27 +704,32 @@ def run_suite(env: Env, sess: Session, node, ops: List[list], baseline, only=Non
     """Attempt the operations (all, or those selected by `only`) and compare the raw dump
     with the baseline.  -> (results per op ('-' = not attempted), new baseline, state problems)"""
     results = []
+    early: List[Dict[str, Any]] = []
     for op in ops:
         if only is not None and not only(op):
             results.append("-")
             continue
-        results.append(run_op(env, sess, node, op)[0])
+        r, _, changed = run_op(env, sess, node, op, check_state=baseline is not None)
+        results.append(r)
+        if changed:
+            early.append({"op": op, "outcome": r, "state_changed": True})
     if baseline is None:
         return results, None, []
     after = env.dump()
-    problems = []
+    problems = list(early)
     if after != baseline:
         # find the culprit(s) by re-running one by one
         cur = after
         for op, r in zip(ops, results):
             if r == "-":
                 continue
-            r2, _ = run_op(env, sess, node, op)
+            r2 = run_op(env, sess, node, op)[0]
             nxt = env.dump()
             if nxt != cur:
-                problems.append({"op": op, "outcome": r2, "state_changed": True})
+                if not any(q["op"] == op for q in problems):
+                    problems.append({"op": op, "outcome": r2, "state_changed": True})
                 cur = nxt
-        if not problems:
+        if len(problems) == len(early):
             problems.append({"op": None, "outcome": "?", "state_changed": True})
         after = cur
     return results, after, problems
@@ -868,10 +948,11 @@ def eval_case(case: Dict[str, Any]) -> Dict[str, Any]:
                 res["problems"] += claims_meta(flags, start_path, got)
             elif node is not None and op is not None:
                 before = env.dump()
-                out, detail = run_op(env, sess, node, op)
+                out, detail, changed = run_op(env, sess, node, op, check_state=True, logical=True)
                 after = env.dump()
-                res["op"] = [op, out, detail]
-                res["problems"] += claims_op(flags, op, out, before != after)
+                res["op"] = [op, out, detail, {"state_changed_by_refused_op": bool(changed),
+                                               "state_differs_after_cleanup": before != after}]
+                res["problems"] += claims_op(flags, op, out, bool(changed) or before != after)
         finally:
             env.close()
     return res
